@@ -1,10 +1,11 @@
 (* Extract/C02.v — OCaml extraction of the edit model (Model/Edit.v), the independent reader
    (Model/Valid.v) and the UEFI core they run on. *)
-From Fiano Require Import Base.Bytes Model.Ffs Model.Edit Model.Valid Model.ValidInv.
+From Fiano Require Import Base.Bytes Model.Ffs Model.Edit Model.Valid Model.ValidInv Model.CreateFv.
 Require Extraction.
 Require Import ExtrOcamlBasic.
 Extraction Language OCaml.
 Extraction "../ocaml/c02/model.ml" parse_region save_region parse_fv parse_file parse_section
   asm asm_bios node_buf create_pad_file
   parse_cli parse_bios run_op edit_and_save find_elems guid_string guid_parse
-  valid_image abs_fv fmatch fv_name flat_check.
+  valid_image abs_fv fmatch fv_name flat_check
+  create_fv_region.
